@@ -1,27 +1,24 @@
 /-
   C05 — the hypotheses under which the model (= the Go code) is proved equal to the Selectors
   definition.  Each clause is either a fact about trees produced by `html.Parse` or the exclusion
-  of an input on which the code is known NOT to follow the definition (see Props/C05.lean for the
-  negation witnesses).
+  of the one input class on which the code deliberately departs from the definition.
 -/
 import WR.C05.Spec
 namespace WR.C05
 open WR.C05.Spec
 
-/-- attribute selector values on which `attrSelector.Match` follows the definition:
-    `~=` needs a non-empty value, `^= $= *=` a value that is not blank (in particular not empty)
-    — the Go code tests the ATTRIBUTE for blankness instead of testing the VALUE for emptiness. -/
+/-- attribute selector values on which `attrSelector.Match` follows the definition.
+    Documented deviation: `^= $= *=` never match a BLANK attribute value (the repository's baseline
+    tests require `p[class$=" "]` to select nothing on `class=" "`), so a non-empty blank selector
+    value — the only kind of value that could match a blank attribute — is outside the proved domain. -/
 def valOk (op : AttrOp) (val : Str) : Bool :=
   match op with
-  | .incl => !val.isEmpty
-  | .pre | .suf | .sub => !isBlank val
+  | .pre | .suf | .sub => val.isEmpty || !isBlank val
   | _ => true
 
 mutual
-  /-- selectors inside the proved domain: class names are non-empty (the parser guarantees it),
-      attribute values satisfy `valOk` -/
+  /-- selectors inside the proved domain: attribute values satisfy `valOk` -/
   def selOk : Sel → Bool
-    | .cls name => !name.isEmpty
     | .attr _ val op _ => valOk op val
     | .rel _ args => selsOk args
     | .compound _ sels => selsOk sels
@@ -32,35 +29,17 @@ mutual
     | s :: ss => selOk s && selsOk ss
 end
 
-mutual
-  /-- selectors on which `Specificity()` follows the definition: no `neverMatchSelector`
-      (`:hover`, `:active`, `:focus`, `:visited`, `:target`), which the code weighs (0,0,0) although
-      they are pseudo-classes -/
-  def weighOk : Sel → Bool
-    | .never _ => false
-    | .rel _ args => weighsOk args
-    | .compound _ sels => weighsOk sels
-    | .combined a _ d => weighOk a && weighOk d
-    | _ => true
-  def weighsOk : List Sel → Bool
-    | [] => true
-    | s :: ss => weighOk s && weighsOk ss
-end
-
-/-- what the theorems need to know about one node of the tree (all true of `html.Parse` output
-    restricted to HTML elements and ASCII white space):
-    * only elements carry attributes (Doctype nodes with PUBLIC/SYSTEM identifiers are excluded);
-    * every element has a parent (the Document node), and the `html` tag names exactly the
-      elements whose parent is not an element;
-    * text children use no Unicode space outside ASCII white space (`strings.TrimSpace` strips
-      U+00A0, U+000B, U+0085, U+2000…; Selectors 4 / HTML "document white space" does not);
-    * a node that is neither element, text nor comment (Doctype) has no element before it. -/
+/-- what the theorems need to know about one node of the tree (all true of `html.Parse` output):
+    * every element has a parent; the parent of an element is an element, or it is the Document node
+      and the element is `html` (the code's `:root` is "an `html` element whose parent is the Document");
+    * a node that is neither element, text nor comment (Doctype, Document) has no element before it
+      (`siblingMatch` skips only text and comment nodes when looking for the adjacent element). -/
 structure LocalOk (l : Loc) : Prop where
-  attrs : l.kind ≠ .elem → l.attrs = []
   parent : l.kind = .elem → l.path ≠ []
-  root : l.kind = .elem → (l.data = htmlTag ↔ ¬ ∃ p, l.parent? = some p ∧ p.kind = .elem)
-  text : ∀ c ∈ l.children, c.kind = .text → ∀ ch ∈ c.data, isGoSpace ch = true → isDocWs ch = true
-  other : ∀ pre s post, l.prevSibs = pre ++ s :: post → s.kind = .other → ∀ e ∈ post, e.kind ≠ .elem
+  root : l.kind = .elem → ∀ p, l.parent? = some p →
+    p.kind = .elem ∨ (p.kind = .doc ∧ l.data = htmlTag)
+  other : ∀ pre s post, l.prevSibs = pre ++ s :: post → (s.kind = .other ∨ s.kind = .doc) →
+    ∀ e ∈ post, e.kind ≠ .elem
 
 /-- a set of nodes closed under the navigation the selectors perform, all of them `LocalOk`
     (e.g. all nodes of one document) -/
